@@ -787,3 +787,45 @@ package kcache
   exit [success-returns-the-client-list-unmodified] (=> (= (|kcache.listResult.err| result) vnil) (and (= clientErr vnil) (= (|kcache.listResult.list| result) clientList)))
   exit [error-or-list] (= (= (|kcache.listResult.err| result) vnil) (not (= (|kcache.listResult.list| result) vnil)))
 @*/
+
+/*@ opaque (*kcache._watchSession).logStatus
+@*/
+
+/*@ func (*kcache._watchSession).connect
+  props C04
+  theory watch
+  requires (and (not (= {s} vnil)) (not (= {s.client} vnil)))
+  at call(Watch) assert [resumes-from-the-session-version-with-watch-set] (and (= (|meta/v1.ListOptions.ResourceVersion| $1) {s.version}) (|meta/v1.ListOptions.Watch| $1))
+  at call(Watch) assert [uses-the-session-context] (= $0 {s.ctx})
+@*/
+
+/*@ func (*kcache._watchSession).stop
+  props C12 C03
+  requires (and (not (= {s} vnil)) (not (= {s.lc} vnil)) (not (= {s.cancel} vnil)))
+  ghost cancelled : Bool := false
+  at call(dyncall) set cancelled := (or cancelled (= $fn {s.cancel}))
+  at call(ShutdownAsync) assert [session-context-is-cancelled-before-waiting-for-the-session] cancelled
+@*/
+
+/*@ func (*kcache._watchSession).run
+  props C04 C10 C14 C12
+  theory watch
+  requires [valid-s] (and (not (= {s} vnil)) (not (= {s.client} vnil)) (not (= {s.outch} vnil)) (not (= {s.lc} vnil)) (not (= {s.log} vnil)) (not (= {s.cancel} vnil)))
+  requires [has-closed-nothing] (forall ((x V)) (not (select $closed x)))
+  ghost lc : Int := 0
+  ghost lastType : Str := |str!|
+  ghost lastObj : V := vnil
+  ghost nobj : Int := 0
+  ghost nsent : Int := 0
+  ghost ndrop : Int := 0
+  at recv(ResultChan) set lastType := (|watch.Event.Type| $val)
+  at call(Accessor).after set lastObj := $result0
+  at call(NewEvent) set nobj := (+ nobj 1)
+  at send(s.outch) assert [event-is-the-translation-of-the-frame-just-received] (and (= (evt-type $val) (xlate lastType)) (= (evt-res $val) lastObj) (not (= lastObj vnil)))
+  at send(s.outch) set nsent := (+ nsent 1)
+  at default set ndrop := (+ ndrop 1)
+  at call(ShutdownInitiated) assert [shutdown-initiated-once] (= lc 0)
+  at call(ShutdownInitiated) set lc := 1
+  at call(ShutdownCompleted) assert [after-shutdown-initiated] (= lc 1)
+  loop 1 inv [every-object-frame-is-forwarded-or-dropped-on-overflow] (and (= nobj (+ nsent ndrop)) (>= nsent 0) (>= ndrop 0) (= lc 0))
+@*/
